@@ -917,3 +917,218 @@ def gen_sampling():
 
 
 MODULES["Sampling"] = gen_sampling
+
+
+# ------------------------------------------------------------------ tile filters, chunked maps (C07)
+class RatTr2(RatTr):
+    """RatTr plus integer floor division / modulus by a positive divisor, min/max, attribute aliases"""
+
+    def __init__(self, alias=None):
+        super().__init__()
+        self.alias = alias or {}
+
+    def expr(self, e, want="Rat"):
+        src = ast.unparse(e)
+        if src in self.alias:
+            n = self.alias[src]
+            return n, self.ty[n]
+        if isinstance(e, ast.BinOp) and isinstance(e.op, (ast.FloorDiv, ast.Mod)):
+            a, ta = self.expr(e.left)
+            b, tb = self.expr(e.right)
+            if ta == "Int" and tb == "Int":
+                return (f"({a} / {b})" if isinstance(e.op, ast.FloorDiv) else f"({a} % {b})"), "Int"
+        if isinstance(e, ast.Call) and ast.unparse(e.func) in ("min", "max") and len(e.args) == 2:
+            a, ta = self.expr(e.args[0])
+            b, tb = self.expr(e.args[1])
+            if ta != tb:
+                a, b, ta = self.cast(a, ta), self.cast(b, tb), "Rat"
+            return f"({ast.unparse(e.func)} {a} {b})", ta
+        return super().expr(e, want)
+
+
+def _lets(tr, stmts, stop_at=None):
+    lets = []
+    for s in stmts:
+        if isinstance(s, ast.Expr) and isinstance(s.value, ast.Constant):
+            continue
+        if stop_at is not None and stop_at(s):
+            break
+        if isinstance(s, ast.Assign) and isinstance(s.targets[0], ast.Name):
+            v, t = tr.expr(s.value)
+            tr.ty[s.targets[0].id] = t
+            lets.append((s.targets[0].id, t, v))
+            continue
+        raise ExtractError(f"unexpected statement {ast.unparse(s)[:70]}")
+    return lets
+
+
+def gen_filter():
+    out = HEADER.format(src="toasty/samplers.py, toasty/jpeg2000.py") + (
+        "/-! Angles in turns (TWOPI = 1, np.pi = 1/2, HALFPI = 1/4). -/\n\nnamespace Gen\nnamespace Filter\n\n")
+    # ---- chunk_spec
+    jt = parse("toasty/jpeg2000.py")
+    cs = find_def(jt, "ChunkedJPEG2000Reader.chunk_spec")
+    body = [s for s in cs.body if not (isinstance(s, ast.Expr) and isinstance(s.value, ast.Constant))]
+    guard = ast.unparse(body[0])
+    if not guard.startswith("if ichunk < 0 or ichunk >= self.n_chunks:\n    raise ValueError("):
+        raise ExtractError("chunk_spec: range check not recognised")
+    unpack = [ast.unparse(s).replace("(th, tw)", "th, tw").replace("(gh, gw)", "gh, gw") for s in body[1:3]]
+    if unpack != ["th, tw = self._tile_shape", "gh, gw = self._jp2.shape[:2]"]:
+        raise ExtractError("chunk_spec: shape unpacking not recognised")
+    tr = RatTr2()
+    tr.ty = {k: "Int" for k in ("th", "tw", "gh", "gw", "ichunk")}
+    lets = _lets(tr, body[3:], stop_at=lambda s: isinstance(s, ast.Return))
+    ret = ast.unparse(body[-1])
+    if ret not in ("return (x0, y0, chunk_width, chunk_height)", "return x0, y0, chunk_width, chunk_height"):
+        raise ExtractError(f"chunk_spec: returns {ret}")
+    out += "/-- `ChunkedJPEG2000Reader.chunk_spec(ichunk)` for a `gw × gh` image with `tw × th` tiles: (x, y, width, height) -/\n"
+    out += "def chunk_spec (gw gh tw th ichunk : Int) : Int × Int × Int × Int :=\n"
+    for n, t, v in lets:
+        out += f"  let {n} : {t} := {v}\n"
+    out += "  (x0, y0, chunk_width, chunk_height)\n\n"
+    nc = find_def(jt, "ChunkedJPEG2000Reader.n_chunks")
+    nb = [ast.unparse(s).replace("(th, tw)", "th, tw") for s in nc.body if not (isinstance(s, ast.Expr) and isinstance(s.value, ast.Constant))]
+    if nb != ["th, tw = self._tile_shape", "return (self._jp2.shape[0] + th - 1) // th * ((self._jp2.shape[1] + tw - 1) // tw)"]:
+        raise ExtractError(f"n_chunks: not recognised: {nb}")
+    out += "/-- `n_chunks` -/\ndef n_chunks (gw gh tw th : Int) : Int := ((gh + th - 1) / th) * ((gw + tw - 1) / tw)\n\n"
+    cd = find_def(jt, "ChunkedJPEG2000Reader.chunk_data")
+    cdsrc = ast.unparse(cd)
+    slice_ok = ("(x0, y0, w, h) = self.chunk_spec(ichunk)" in cdsrc or "x0, y0, w, h = self.chunk_spec(ichunk)" in cdsrc) and "self._jp2[y0:y0 + h, x0:x0 + w]" in cdsrc
+    out += f"/-- `chunk_data(ichunk)` is the sub-array `[y0:y0+h, x0:x0+w]` of the image -/\ndef chunk_data_is_subarray : Bool := {'true' if slice_ok else 'false'}\n\n"
+    # ---- ChunkedPlateCarreeSampler
+    st = parse("toasty/samplers.py")
+    init = find_def(st, "ChunkedPlateCarreeSampler.__init__")
+    isrc = [ast.unparse(s) for s in init.body]
+    if "self.sx = TWOPI / self._image.shape[1]" not in isrc or "self.sy = np.pi / self._image.shape[0]" not in isrc:
+        raise ExtractError("ChunkedPlateCarreeSampler.__init__: pixel scales not recognised")
+    cb = find_def(st, "ChunkedPlateCarreeSampler._chunk_bounds")
+    b = [s for s in cb.body if not (isinstance(s, ast.Expr) and isinstance(s.value, ast.Constant))]
+    if ast.unparse(b[0]).replace("(cx, cy, cw, ch)", "cx, cy, cw, ch") != "cx, cy, cw, ch = self._image.chunk_spec(ichunk)":
+        raise ExtractError("_chunk_bounds: chunk_spec unpacking not recognised")
+    tr = RatTr2(alias={"self.sx": "sx", "self.sy": "sy"})
+    tr.ty = {k: "Int" for k in ("cx", "cy", "cw", "ch", "gw", "gh")}
+    tr.ty.update({"sx": "Rat", "sy": "Rat"})
+    lets = _lets(tr, b[1:], stop_at=lambda s: isinstance(s, ast.Return))
+    ret = ast.unparse(b[-1])
+    if ret not in ("return (lon_l, lon_r, lat_d, lat_u)", "return lon_l, lon_r, lat_d, lat_u"):
+        raise ExtractError(f"_chunk_bounds: returns {ret}")
+    out += "/-- `ChunkedPlateCarreeSampler._chunk_bounds`: (lon_min, lon_max, lat_min, lat_max) of the chunk at (cx, cy) of size cw × ch in a gw × gh map -/\n"
+    out += "def chunk_bounds (gw gh cx cy cw ch : Int) : Rat × Rat × Rat × Rat :=\n"
+    out += "  let sx : Rat := (1 : Rat) / ((gw : Int) : Rat)\n  let sy : Rat := ((1 : Rat) / 2) / ((gh : Int) : Rat)\n"
+    for n, t, v in lets:
+        out += f"  let {n} : {t} := {v}\n"
+    out += "  (lon_l, lon_r, lat_d, lat_u)\n\n"
+    # the sampler
+    sm = find_def(st, "ChunkedPlateCarreeSampler.sampler")
+    sb = [s for s in sm.body if not (isinstance(s, ast.Expr) and isinstance(s.value, ast.Constant)) and not isinstance(s, (ast.Import, ast.ImportFrom))]
+    ssrc = [ast.unparse(s) for s in sb]
+    pre_ok = (ssrc[0].replace("(chunk_lon_min, chunk_lon_max, chunk_lat_min, chunk_lat_max)", "chunk_lon_min, chunk_lon_max, chunk_lat_min, chunk_lat_max")
+              == "chunk_lon_min, chunk_lon_max, chunk_lat_min, chunk_lat_max = self._chunk_bounds(ichunk)"
+              and ssrc[1] == "data = self._image.chunk_data(ichunk)" and ssrc[2] == "data_img = Image.from_array(data)"
+              and ssrc[3] == "buffer = data_img.mode.make_maskable_buffer(256, 256)"
+              and ssrc[4].replace("(biy, bix)", "biy, bix") == "biy, bix = np.indices((256, 256))"
+              and ssrc[5].replace("(ny, nx)", "ny, nx") == "ny, nx = data.shape[:2]")
+    if not pre_ok:
+        raise ExtractError("ChunkedPlateCarreeSampler.sampler: prologue not recognised")
+    tr = RatTr2()
+    tr.ty = {"nx": "Int", "ny": "Int", "chunk_lon_min": "Rat", "chunk_lon_max": "Rat", "chunk_lat_min": "Rat", "chunk_lat_max": "Rat"}
+    inner = [s for s in sb if isinstance(s, ast.FunctionDef)]
+    if len(inner) != 1 or [a.arg for a in inner[0].args.args] != ["lon", "lat"]:
+        raise ExtractError("ChunkedPlateCarreeSampler.sampler: inner function not recognised")
+    lets = _lets(tr, sb[6:], stop_at=lambda s: isinstance(s, ast.FunctionDef))
+    tr.ty["lon"] = "Rat"
+    tr.ty["lat"] = "Rat"
+    ib = inner[0].body
+    isrc = [ast.unparse(s) for s in ib]
+    want_shape = ["lon = (lon + np.pi) % TWOPI - np.pi", "ix = (lon - lon0) * dx", "ix = np.round(ix).astype(int)", "ok = (ix >= 0) & (ix < nx)",
+                  "iy = (lat0 - lat) * dy", "iy = np.round(iy).astype(int)", "ok &= (iy >= 0) & (iy < ny)",
+                  "data_img.fill_into_maskable_buffer(buffer, iy[ok], ix[ok], biy[ok], bix[ok])", "return buffer.asarray()"]
+    if isrc != want_shape:
+        k = next((i for i, (a, c) in enumerate(zip(isrc, want_shape)) if a != c), min(len(isrc), len(want_shape)))
+        raise ExtractError(f"chunk sampler: statement {k} not in the recognised shape: {isrc[k] if k < len(isrc) else '(missing)'}")
+    out += ("/-- the chunk sampler: `(iy, ix, ok)` — the chunk-local array index a sky position is mapped to and whether it is kept;\n"
+            "`nx × ny` is the chunk's size and the four bounds are `_chunk_bounds` -/\n")
+    out += "def chunk_index (nx ny : Int) (chunk_lon_min chunk_lon_max chunk_lat_min chunk_lat_max lon lat : Rat) : Int × Int × Bool :=\n"
+    for n, t, v in lets:
+        out += f"  let {n} : {t} := {v}\n"
+    out += "  let lon : Rat := ((ratMod (lon + ((1 : Rat) / 2)) (1 : Rat)) - ((1 : Rat) / 2))\n"
+    out += "  let ix : Int := roundHE ((lon - lon0) * dx)\n  let iy : Int := roundHE ((lat0 - lat) * dy)\n"
+    out += "  (iy, ix, decide (0 ≤ ix) && decide (ix < nx) && decide (0 ≤ iy) && decide (iy < ny))\n\n"
+    # ---- filter factories
+    def _ret(qual):
+        fn = find_def(st, qual)
+        return ast.unparse([s for s in fn.body if not (isinstance(s, ast.Expr) and isinstance(s.value, ast.Constant))][-1])
+    f1 = _ret("WcsSampler.filter") == "return _latlon_tile_filter(*self._image_bounds())"
+    f2 = _ret("ChunkedPlateCarreeSampler.filter") == "return _latlon_tile_filter(*self._chunk_bounds(ichunk))"
+    ll = find_def(st, "_latlon_tile_filter")
+    lsrc = ast.unparse(ll)
+    f3 = ("corner_lonlats = np.asarray(tile.corners)" in lsrc and
+          "return tile_intersects_latlon_bbox(corner_lonlats, image_lon_min, image_lon_max, image_lat_min, image_lat_max)" in lsrc)
+    out += ("/-- the filters of `WcsSampler` and `ChunkedPlateCarreeSampler` are `_latlon_tile_filter` on the image / chunk bounds, which hands a fresh\n"
+            "array of the tile's corners and the four bounds to `tile_intersects_latlon_bbox` -/\n")
+    out += f"def filters_are_bbox_tests : Bool := {'true' if f1 and f2 and f3 else 'false'}\n\n"
+    # ---- the refinement grids of _image_bounds
+    ib_ = find_def(st, "WcsSampler._image_bounds")
+    refine = {n.name: n for n in ast.walk(ib_) if isinstance(n, ast.FunctionDef) and n is not ib_}
+    if set(refine) != {"refine_lat", "refine_lon"}:
+        raise ExtractError("_image_bounds: refine helpers not recognised")
+    rows = []
+    plus_one = []
+    rl = refine["refine_lon"]
+    chain = [s for s in rl.body if isinstance(s, ast.If)]
+    if len(chain) != 1:
+        raise ExtractError("refine_lon: edge dispatch not recognised")
+    node, k = chain[0], 0
+    branches = []
+    while True:
+        branches.append((ast.unparse(node.test), node.body))
+        if len(node.orelse) == 1 and isinstance(node.orelse[0], ast.If):
+            node = node.orelse[0]
+        else:
+            branches.append(("else", node.orelse))
+            break
+    if [t for t, _ in branches] != ["e < nm", "e < 2 * nm", "e < 3 * nm", "else"]:
+        raise ExtractError("refine_lon: edge tests not recognised")
+    for edge, (test, bd) in zip(("top", "right", "bottom", "left"), branches):
+        src = {ast.unparse(s.targets[0]): ast.unparse(s.value) for s in bd if isinstance(s, ast.Assign)}
+        m = re.fullmatch(r"max\(int\(np\.ceil\(coarse_idx(\d)\[hi\] - coarse_idx\1\[lo\]\)\)( \+ 1)?, (\d+)\)", src.get("n", ""))
+        if not m:
+            raise ExtractError(f"refine_lon[{edge}]: n = {src.get('n')}")
+        naxis, nmin = int(m.group(1)), int(m.group(3))
+        plus_one.append(m.group(2) is not None)
+        vary = fixed = None
+        for ax in (1, 2):
+            v = src.get(f"refined_idx{ax}", "")
+            m1 = re.fullmatch(r"np\.linspace\(coarse_idx(\d)\[lo\], coarse_idx\1\[hi\], n\)", v)
+            m2 = re.fullmatch(r"np\.zeros\(n\) \+ coarse_idx(\d)\[(0|nm)\]", v)
+            if m1:
+                vary = (ax, int(m1.group(1)))
+            elif m2:
+                fixed = (ax, int(m2.group(1)), m2.group(2))
+            else:
+                raise ExtractError(f"refine_lon[{edge}]: refined_idx{ax} = {v}")
+        if vary is None or fixed is None:
+            raise ExtractError(f"refine_lon[{edge}]: shape")
+        rows.append(f"({vary[0]}, {vary[1]}, {naxis}, {nmin}, {fixed[0]}, {fixed[1]}, {'true' if fixed[2] == 'nm' else 'false'})")
+    out += ("/-- `refine_lon`, per edge (top, right, bottom, left): (axis that varies, coarse grid its end points are read from, coarse grid the sample count is\n"
+            "computed from, minimum sample count, axis held fixed, coarse grid of the fixed value, fixed at the last coarse sample?) -/\n")
+    out += "def refine_lon_edges : List (Nat × Nat × Nat × Nat × Nat × Nat × Bool) := [" + ", ".join(rows) + "]\n"
+    la = refine["refine_lat"]
+    lsrc = {ast.unparse(s.targets[0]): ast.unparse(s.value) for s in la.body if isinstance(s, ast.Assign)}
+    mm = [re.fullmatch(r"max\(int\(np\.ceil\(coarse_idx(\d)\[hi\1\] - coarse_idx\1\[lo\1\]\)\)( \+ 1)?, (\d+)\)", lsrc.get(f"n{a}", "")) for a in (1, 2)]
+    lin = [lsrc.get(f"refined_idx{a}") == f"np.linspace(coarse_idx{a}[lo{a}], coarse_idx{a}[hi{a}], n{a})" for a in (1, 2)]
+    if not all(mm) or not all(lin):
+        raise ExtractError("refine_lat: grid construction not recognised")
+    out += f"/-- `refine_lat`: minimum sample counts along the two axes -/\ndef refine_lat_min_samples : Nat × Nat := ({mm[0].group(3)}, {mm[1].group(3)})\n"
+    plus_one += [m_.group(2) is not None for m_ in mm]
+    out += ("/-- every refinement takes `ceil(span) + 1` samples over a span of `span` pixels (gaps of at most one pixel);\n"
+            "`false`: `ceil(span)` samples, i.e. gaps of up to two pixels -/\n"
+            f"def refine_gap_at_most_one_pixel : Bool := {'true' if all(plus_one) else 'false'}\n")
+    ibsrc = ast.unparse(ib_)
+    pole = "for pole_lat in (-90.0, 90.0):" in ibsrc and "lat_max = 90 * D2R" in ibsrc and "lat_min = -90 * D2R" in ibsrc
+    out += f"/-- a celestial pole that projects into the image sets the corresponding latitude bound to ±π/2 -/\ndef pole_inside_sets_bound : Bool := {'true' if pole else 'false'}\n"
+    out += "\nend Filter\nend Gen\n"
+    return out
+
+
+MODULES["Filter"] = gen_filter
